@@ -8,7 +8,7 @@ def _conc(ctx):
     conc.conc_sessions(ctx, int((20 if ctx.tier == "quick" else 300) * ctx.budget))
 
 
-Unit([("shell", scen.gen_shell, 2), ("sync", scen.gen_sync_read, 2), ("push", scen.gen_push, 1), ("handshake", scen.gen_handshake, 2), ("mixed", scen.gen_mixed, 2), ("reconnect", scen.gen_reconnect_push, 1),
+Unit([("shell", scen.gen_shell, 2), ("sync", scen.gen_sync_read, 2), ("push", scen.gen_push, 1), ("handshake", scen.gen_handshake, 2), ("mixed", scen.gen_mixed, 2), ("reconnect", scen.gen_reconnect_push, 1), ("slow", scen.gen_slow, 1), ("noclose", scen.gen_noclose, 1),
       ("fail", scen.gen_fail, 2), ("stall", scen.gen_stall, 2), ("shortwrite", scen.gen_short_writes, 1), ("corrupt", scen.gen_corrupt, 1), ("guards", scen.gen_guards, 1)],
      COMMON,
      "every scenario family is executed through AdbDevice and AdbDeviceAsync on identical scripted transports; the two implementations' observables (bytes "
